@@ -198,6 +198,7 @@ func Minimise(t *testing.T, d *Desc, prop, class string, maxTrials int) (*Desc, 
 				func(x *ExecD) bool { v := x.DelaySteps > 0; x.DelaySteps /= 2; return v },
 				func(x *ExecD) bool { v := x.Conc > 1; x.Conc = 1; return v },
 				func(x *ExecD) bool { v := x.SlowEmit; x.SlowEmit = false; return v },
+				func(x *ExecD) bool { v := x.ShareErr; x.ShareErr = false; return v },
 				func(x *ExecD) bool { v := x.SharedErr; x.SharedErr = false; return v },
 				func(x *ExecD) bool { v := x.CtxKind != 0; x.CtxKind = 0; return v },
 			)
